@@ -21,6 +21,7 @@ From AV Require LatEngine.LatParHead.
 From AV Require LatEngine.LatParIter.
 From AV Require LatEngine.LatParMain.
 From AV Require LatEngine.LatParExample.
+From AV Require LatEngine.LatParCausality.
 Import ListNotations.
 
 (* one iteration: for every distribution of the derived facts over the workers and every interleaving that lets all
@@ -324,6 +325,19 @@ Proof.
   exists LatParExample.px_final. split; [exact LatParExample.px_parallel_run|]. split; [exact LatParExample.px_result | exact LatParExample.px_serial].
 Qed.
 
+(* why the model has its causality condition: with "derived from values seen at SOME moment of the iteration" (= between the value
+   at the start and the value at the end) instead of "... seen BEFORE its head update starts", the model admits an iteration no
+   execution can produce - lattice x(Dual<u32>), rule x(v) <-- x(v), input x = 5: the contribution x = 0 justifies itself through
+   its own join - ending outside the only fixed point above the input *)
+Theorem c02_par_lat_acausal_model_refuted :
+  exists R' N' ch',
+    LatParCausality.par_lat_iteration_acausal LatVocab.lv_interp LatExample.sp_islat LatExample.sp_jm LatParCausality.cx_scc
+      LatParCausality.cx_St LatParCausality.cx_T LatParCausality.cx_D LatParCausality.cx_input R' N' ch'
+    /\ LatSem.directed LatVocab.lv_interp LatExample.sp_islat LatExample.sp_lle (LatSem.dbof LatParCausality.cx_input)
+    /\ LatSem.closedH LatVocab.lv_interp LatExample.sp_islat LatExample.sp_lle LatParCausality.cx_prog (LatSem.dbof LatParCausality.cx_input)
+    /\ exists row, In row (R' 1%nat) /\ ~ LatSem.below LatVocab.lv_interp LatExample.sp_islat LatExample.sp_lle (LatSem.dbof LatParCausality.cx_input) (1%nat, row).
+Proof. exact LatParCausality.acausal_run_not_least. Qed.
+
 (* SCOPE of the lattice engine theorems: programs without aggregation (the hypothesis no_agg, as in C03; aggregates over parallel
    lattice relations are C04 / C05's subject and are exercised through ascent_par! by the tie only); a run that ENDS (no state of the head updates is a deadlock: c02_par_lat_no_deadlock, and
    per iteration every reachable state of them can be completed: c02_lattice_can_finish; termination of the SCC loop is a property of
@@ -344,4 +358,4 @@ Print Assumptions c02_lattice_new_views_agree. Print Assumptions c02_lattice_new
 Print Assumptions c02_par_lat_run_least_fixed_point. Print Assumptions c02_par_lat_run_one_row_per_key. Print Assumptions c02_par_lat_run_inputs_raised.
 Print Assumptions c02_par_lat_equals_serial. Print Assumptions c02_par_lat_run_sound. Print Assumptions c02_par_lat_run_closed_at_exit.
 Print Assumptions c02_par_lat_sound_at_every_iteration. Print Assumptions c02_par_lat_no_deadlock.
-Print Assumptions c02_par_lat_example_hypotheses. Print Assumptions c02_par_lat_example_run.
+Print Assumptions c02_par_lat_example_hypotheses. Print Assumptions c02_par_lat_example_run. Print Assumptions c02_par_lat_acausal_model_refuted.
